@@ -179,7 +179,7 @@ func c05HeaderMuts(rng *rand.Rand, full bool) []c05Mut {
 }
 
 func c05NTSMuts() []c05Mut {
-	names := []string{"unique id of another request", "sealed with the client-to-server key", "sealed with a random key", "no NTS fields at all",
+	names := []string{"unique id of another request", "unique id of the request with four more bytes", "unique id of the request with 32 more bytes", "sealed with the client-to-server key", "sealed with a random key", "no NTS fields at all",
 		"header bit flipped after sealing", "unique-id bit flipped after sealing", "nonce bit flipped", "ciphertext bit flipped", "no unique identifier field",
 		"authenticator ciphertext length word + 4", "extension length word 0", "replayed response of the previous exchange",
 		"forged without any key: authenticator with an empty ciphertext", "replayed response with the outstanding unique id appended after the authenticator"}
@@ -292,6 +292,10 @@ func (p *c05Peer) handle(s *peer.NTPServer, dg []byte, from netip.AddrPort, rx t
 			case "unique id of another request":
 				uid = append([]byte{}, uid...)
 				uid[5] ^= 0x40
+			case "unique id of the request with four more bytes":
+				uid = append(append([]byte{}, uid...), randBytes(p.rng, 4)...)
+			case "unique id of the request with 32 more bytes":
+				uid = append(append([]byte{}, uid...), randBytes(p.rng, 32)...)
 			case "sealed with the client-to-server key":
 				key = keys.C2S
 			case "sealed with a random key":
